@@ -406,6 +406,25 @@ Definition C09_contract_session : Prop :=
     u < List.length (threads s1) ->
     evs u (log (run F s1 (AStop :: h'))) <= evs u (log s1) + 1.
 
+(** ---------------------------------------------------------------- when is a blocking operation cancellable?
+    (interp/run.go send, recv, recv2 against rangeChan, _select.) [interp.cancelChan] is false on a
+    new interpreter and set by every [*WithContext] entry ([Begin]); it is never reset. The
+    generators of send, receive and two-value receive read it when the code is GENERATED (genRun,
+    at the Execute / import that loads the code) and then emit either the cancellable form
+    (select on the frame's done) or the plain blocking one; range over a channel and select always
+    select on done. So the [canc] flag of a [Block] is fixed by the session prefix up to and
+    including the evaluation that loaded the code. *)
+Inductive construct := KSend | KRecv | KRecv2 | KRange | KSelect.
+
+Definition begun (h : list action) : bool :=
+  existsb (fun a => match a with ABegin => true | _ => false end) h.
+
+Definition gen_canc (c : construct) (cancel_chan : bool) : bool :=
+  match c with
+  | KRange | KSelect => true
+  | KSend | KRecv | KRecv2 => cancel_chan
+  end.
+
 (** ---------------------------------------------------------------- the frame slot of a function literal
     (interp/run.go getFunc, as repaired by abe7a69). A function literal has one frame slot.
     Executing the literal stores the new function value there (the clone kept by the value has that
